@@ -855,7 +855,9 @@ func (d *DotGit) ObjectsWithPrefix(prefix []byte) ([]plumbing.Hash, error) {
 				return bytes.Compare(objectList[i].Bytes(), limPrefix) >= 0
 			})
 		}
-		return objectList[first:lim], nil
+		// The cached listing is shared: cap the result so that a caller's
+		// append allocates instead of overwriting the entries that follow.
+		return objectList[first:lim:lim], nil
 	}
 
 	// This is the slow path.
@@ -883,7 +885,7 @@ func (d *DotGit) Objects() ([]plumbing.Hash, error) {
 			return nil, err
 		}
 
-		return objectList, nil
+		return objectList[:len(objectList):len(objectList)], nil
 	}
 
 	var objects []plumbing.Hash
